@@ -493,6 +493,22 @@ func build(seed uint64, profile string) *built {
 			g.optID++
 			g.put(2, &dns.OPT{Hdr: dns.RR_Header{Name: ".", Rrtype: dns.TypeA, Class: 1232, Ttl: 0x8000}, Option: g.ednsOptions()}, "x"+strconv.Itoa(g.optID))
 		}
+	case "bigopt":
+		// beyond the pooled buffer, so PackClone takes libraryPackImmutable: OPT (often
+		// aliased into other sections) whose TTL the library's Pack would rewrite
+		g.records(2)
+		m.Rcode = vlib.Pick(r, []int{0, 3, 16, 255, 4095})
+		o := g.newOPT(2)
+		if r.Chance(1, 2) {
+			o.Hdr.Ttl = vlib.Pick(r, []uint32{0xFF008000, 0x01000000, 0xAB000000})
+		}
+		if r.Chance(1, 2) {
+			g.put(vlib.Pick(r, []int{0, 1, 2}), o, g.b.kinds[2][len(g.b.kinds[2])-1])
+		}
+		if r.Chance(1, 3) {
+			g.put(2, g.rr(g.name()), "a")
+		}
+		g.padTo(wire.VerifPackBufferSize + vlib.Pick(r, []int{1, 2, 50, 400}))
 	case "bad":
 		g.records(2)
 		if r.Chance(1, 2) {
